@@ -16,10 +16,12 @@ def orth_of(core):
 
 
 def run_solver(repo, which, d, solver, repeats, threshold=1e-12, max_rank=None, dtype='complex'):
+    dts = (dtype,) * 3 if isinstance(dtype, str) else dtype
+
     def body(sc):
-        A = sc.tt('A', d, 'op', dtype=dtype)
-        x = sc.tt('x', d, 'vec', dtype=dtype)
-        b = sc.tt('b', d, 'vec', dtype=dtype)
+        A = sc.tt('A', d, 'op', dtype=dts[0])
+        x = sc.tt('x', d, 'vec', dtype=dts[1])
+        b = sc.tt('b', d, 'vec', dtype=dts[2])
         sc.inputs = {'A': A, 'x': x, 'b': b}
         sc.old_ranks = list(x._attrs['ranks'])
         if which == 'als':
@@ -64,23 +66,29 @@ def check(repo, tier):
             if which == 'mals' and d < 2:
                 continue
             variants = [(1e-12, None)] if which == 'als' else ([(1e-12, None), (0, None), (1e-12, 'rho'), (0, 'rho')] if (tier == 'thorough' or (d <= 3 and rep == 1)) else [(1e-12, None)])
-            for thr, mr in variants:
-                scen = f'{which}(order={d}, repeats={rep}, solver={solver}' + (f', threshold={thr}, max_rank={"rho" if mr else "inf"}' if which == 'mals' else '') + ')'
-                for ch, sc, res, exc in run_solver(repo, which, d, solver, rep, thr, mr):
+            variants = [v_ + ('complex',) for v_ in variants]
+            if d in (2, 3) and rep == 1 and solver == 'solve':
+                # mixed dtypes (operator, guess, right-hand side): a real right-hand side under a complex Hermitian operator, a real operator with a complex guess
+                variants += [(1e-12, None, ('complex', 'complex', 'real')), (1e-12, None, ('real', 'complex', 'real'))]
+            for thr, mr, dts in variants:
+                scen = f'{which}(order={d}, repeats={rep}, solver={solver}' + (f', threshold={thr}, max_rank={"rho" if mr else "inf"}' if which == 'mals' else '') + \
+                    (f', dtypes of operator/guess/right-hand side = {"/".join(dts)}' if dts != 'complex' else '') + ')'
+                for ch, sc, res, exc in run_solver(repo, which, d, solver, rep, thr, mr, dtype=dts):
                     entry = f'{SLE}.{which}'
                     n_contr += l2rules.typing_obligations(run, 'C07', 'D1', repo, sc, scen, mods)
                     l2rules.relative_cut_obligations(run, 'C07', 'D5', repo, sc, scen, mods)
-                    if exc is not None:
-                        run.oblige('D2' if 'None' in exc.message else 'D1', (entry, scen, 'raises'), False)
-                        l2rules.raised_finding(run, 'C07', 'D2' if 'None' in exc.message else 'D1', repo, entry, scen, exc)
-                        continue
-                    run.oblige('D2', (entry, scen, 'no exception'), True)
-                    # D2 stale reads
+                    # D2 stale reads (decided first: what a stale operand leads to later on the path -- a shape error, an ill-typed contraction -- is its consequence)
                     st = sc.events('stale-read') + sc.events('use-after-destroy')
                     run.oblige('D2', (entry, scen, 'stale'), not st)
                     for e in st:
                         where, cons, f, ln = l2rules.ev_where(repo, e)
                         run.add(Finding('C07', 'D2', where, cons, f'{scen}: {e["detail"]}', f, ln, {'scenario': scen}))
+                    if exc is not None:
+                        if not st:
+                            run.oblige('D2' if 'None' in exc.message else 'D1', (entry, scen, 'raises'), False)
+                            l2rules.raised_finding(run, 'C07', 'D2' if 'None' in exc.message else 'D1', repo, entry, scen, exc)
+                        continue
+                    run.oblige('D2', (entry, scen, 'no exception'), True)
                     # D5 invariant + ranks
                     ok = l2rules.invariant_obligation(run, 'C07', 'D5', repo, sc, res, entry, scen)
                     x = sc.inputs['x']
